@@ -212,6 +212,7 @@ func SpecLineAfter(line string, indent int) int {
 //@   ensures implies(b == " ", r == SpecSpaces(count))
 
 //@ contract processLine
+//@   rtc tokens "##!> " "assemble" "##!<" "include x" "  " "##!+ i" "a" "\t" "##! c"
 //@   tags C09 C10
 //@   results out next err
 //@   requires indent >= 0
@@ -382,6 +383,7 @@ func SpecHasHeader(lines []string) bool {
 }
 
 //@ contract checkStandardHeader
+//@   rtc tokens "##! Please refer to the documentation at" "##! https://coreruleset.org/docs/development/regex_assembly/." "x" " "
 //@   tags C09
 //@   opt encoding seq
 //@   results r
@@ -510,6 +512,7 @@ func LemmaFirstId(ruleId string, lines [][]byte, i int) {
 // previously resolved id / file name / offset untouched. The narrowing conversion to uint8
 // never changes the value (conv-range obligation).
 //@ contract parseRuleId
+//@   rtc tokens "123456" "-chain" "0" "19" "256" ".ra" "x" "-"
 //@   tags C18
 //@   opt conv-range C18 C16
 //@   results err
